@@ -244,7 +244,23 @@ def check_id_allocation(ctx: Ctx, oid: str):
     ctx.ob(oid, "R27 WRITE-OWNERSHIP", leaks[0][0] if leaks else enc, "the encoder stores nothing in the model (every solve of a model encodes the same variables and constraints)", not leaks, f"`{ast.unparse(leaks[0][1])[:60]}`: what one solve leaves in the model is encoded again by the next, with literal ids that no longer belong to it" if leaks else "", node=leaks[0][1] if leaks else enc.node)
     civ = ctx.func("cp_encoder", "SATEncoder._create_int_var")
     t = ast.unparse(civ.node)
-    ctx.ob(oid, "R28 WRITER-DISCIPLINE", civ, "every value of an auxiliary integer variable gets its literal from the encoder's allocator", "for v in range(lb, ub + 1):\n        var.bool_vars[v] = self._new_bool_var()" in t and "var.bool_vars = {}" in t, "auxiliary literals taken from another counter can coincide with literals the encoder allocates itself", node=civ.node)
+    ivc = [n for n in own_nodes(civ.node) if isinstance(n, ast.Call) and ast.unparse(n.func) == "IntVar"]
+    iv = ctx.func("cp", "IntVar.__init__")
+    ti = ast.unparse(iv.node)
+    via_ctor = len(ivc) == 1 and ivc[0].args and ast.unparse(ivc[0].args[0]) == "self" and "for v in range(lb, ub + 1):\n        self.bool_vars[v] = model._new_bool_var()" in ti and "var.bool_vars" not in t.replace("var.bool_vars.values()", "")
+    by_hand = "for v in range(lb, ub + 1):\n        var.bool_vars[v] = self._new_bool_var()" in t and "var.bool_vars = {}" in t and len(ivc) == 1 and ivc[0].args and ast.unparse(ivc[0].args[0]) == "self"
+    ctx.ob(oid, "R28 WRITER-DISCIPLINE", civ, "every value of an auxiliary integer variable gets its literal from the encoder's allocator, and from no other counter", via_ctor or by_hand, f"`{ast.unparse(ivc[0])[:50] if ivc else '?'}`: IntVar.__init__ draws one literal per value from the allocator it is given - handed the model, every solve advances the model's counter and leaves unused literal numbers behind, free variables for the SAT solver (a second enumerating solve of the same model ends in MAX_ITER)", node=ivc[0] if ivc else civ.node)
+    # the model itself is handed to nobody: the encoder only reads attributes of it
+    handed = []
+    for q, f in sorted(m.funcs.items()):
+        if not q.startswith("SATEncoder.") or f.name == "__init__":
+            continue
+        for n in ast.walk(f.node):
+            if isinstance(n, ast.Call):
+                for a_ in list(n.args) + [k.value for k in n.keywords]:
+                    if ast.unparse(a_) == "self.model":
+                        handed.append((f, n))
+    ctx.ob(oid, "R27 WRITE-OWNERSHIP", handed[0][0] if handed else enc, "the encoder passes the model to no constructor or function (it only reads its variables, constraints and flattener)", not handed, f"`{ast.unparse(handed[0][1])[:60]}`: whoever receives the model can write it - IntVar's constructor advances its literal counter" if handed else "", node=handed[0][1] if handed else enc.node)
     for n in ast.walk(ctx.repo.module("cp_encoder").tree):
         if isinstance(n, ast.Call) and isinstance(n.func, ast.Attribute) and n.func.attr == "_new_bool_var" and ast.unparse(n.func.value) != "self":
             ctx.ob(oid, "R28 WRITER-DISCIPLINE", civ, "the encoder allocates literals only from its own counter", False, f"`{ast.unparse(n)}`", node=n)
@@ -399,7 +415,7 @@ def check_constraint_table(ctx: Ctx, oid: str):
 
 SMALL_ENCODERS = {
     # function: fragments that together are its whole meaning (compared on the surface-normalised text)
-    "SATEncoder._encode_exactly_one": ["self._clauses.append(lits)", "for a, b in combinations(lits, 2):\n        self._clauses.append([-a, -b])"],
+    "SATEncoder._encode_exactly_one": ["if not lits:\n        self._clauses.append([])\n        return", "self._clauses.append(lits)", "for a, b in combinations(lits, 2):\n        self._clauses.append([-a, -b])"],
     "SATEncoder._encode_at_most_one": ["for a, b in combinations(lits, 2):\n        self._clauses.append([-a, -b])"],
     "SATEncoder._encode_eq_const": ["if val in var.bool_vars:\n        self._clauses.append([var.bool_vars[val]])\n    else:\n        self._clauses.append([])"],
     "SATEncoder._encode_ne_const": ["if val in var.bool_vars:\n        self._clauses.append([-var.bool_vars[val]])"],
@@ -427,7 +443,7 @@ LARGER_ENCODERS = {
         "self._encode_sum_eq([partial_sum] + list(variables[2:]), target)",
     ],
     "SATEncoder._encode_sum_le": [
-        "if len(variables) == 0:\n        return",
+        "if len(variables) == 0:\n        if target < 0:\n            self._clauses.append([])\n        return",
         "if len(variables) == 1:\n        v = variables[0]\n        for val in range(v.lb, v.ub + 1):\n            if val > target:\n                self._clauses.append([-v.bool_vars[val]])\n        return",
         "if len(variables) == 2:\n        v1, v2 = variables\n        for val1 in range(v1.lb, v1.ub + 1):\n            for val2 in range(v2.lb, v2.ub + 1):\n                if val1 + val2 > target:\n                    self._clauses.append([-v1.bool_vars[val1], -v2.bool_vars[val2]])\n        return",
         "v1, v2 = (variables[0], variables[1])\n    rest_min = sum((v.lb for v in variables[2:]))\n    partial_sum = self._create_int_var(v1.lb + v2.lb, min(v1.ub + v2.ub, target - rest_min))",
